@@ -727,7 +727,88 @@ def interesting_kills(slice_events, watch):
     return sorted(p for p in pts if 0 <= p <= len(slice_events) + 1)
 
 
+BASE32 = "abcdefghijklmnopqrstuvwxyz234567"
+SPEC_PREFIXES = sorted(BASE32[v >> 5] + BASE32[v & 31] for v in range(1024))
+
+
+def boundary_prefixes(ctx):
+    """Run in every check, first: the real crawler's prefix table against the specification (the sorted
+    two-character base32 prefixes of all 1024 ten-bit values), and a real ShareCrawler over buckets in the
+    boundary prefix directories, 2 cycles with interruptions: every bucket exactly once per cycle."""
+    import struct as _struct
+    from allmydata.storage import crawler as crawler_mod
+    from allmydata.storage.common import si_b2a
+    from allmydata.storage.server import StorageServer
+    base = os.path.join(env.subdir("c27"), "boundary")
+    ss = StorageServer(base, b"\x27" * 20)
+    Recorder = make_recorder()
+    clock = ScriptedTime()
+    saved_time = crawler_mod.time
+    crawler_mod.time = clock
+    try:
+        log = []
+        c = Recorder(ss, os.path.join(base, "boundary-state"), clock, log)
+        real = list(c.prefixes)
+        ctx.case(("prefix-table",), kind="prefix-table-vs-specification")
+        if real != SPEC_PREFIXES:
+            missing = sorted(set(SPEC_PREFIXES) - set(real))
+            extra = sorted(set(real) - set(SPEC_PREFIXES))
+            ctx.oracle_fail("crawler-prefix-table-differs-from-specification",
+                            "ShareCrawler.prefixes has %d entries; missing prefix directories %s, unexpected %s%s" % (
+                                len(real), missing[:5], extra[:5], "" if set(real) == set(SPEC_PREFIXES) else ""),
+                            case={"prefix_table": "ShareCrawler(...).prefixes"}, expected={"count": 1024, "first": SPEC_PREFIXES[:2], "last": SPEC_PREFIXES[-2:]},
+                            observed={"count": len(real), "missing": missing[:8], "unexpected": extra[:8], "sorted": real == sorted(real)})
+        # buckets in the boundary prefix directories, chosen by their ten leading bits
+        i77 = SPEC_PREFIXES.index("77")
+        wanted = ["aa", "77", "76", SPEC_PREFIXES[0], SPEC_PREFIXES[1], SPEC_PREFIXES[-1], SPEC_PREFIXES[-2],
+                  SPEC_PREFIXES[i77 - 1], SPEC_PREFIXES[(i77 + 1) % 1024], "ab", "7a"]
+        buckets = {}
+        for k, pfx in enumerate(dict.fromkeys(wanted)):
+            v = (BASE32.index(pfx[0]) << 5) | BASE32.index(pfx[1])
+            for low in ((0, 63) if pfx in ("77", "aa") else (k % 64,)):
+                si = _struct.pack(">H", (v << 6) | low) + b"%014d" % (k * 100 + low)
+                _, w = ss.allocate_buckets(si, b"r" * 32, b"c" * 32, {0}, 3)
+                w[0].write(0, b"abc")
+                w[0].close()
+                name = si_b2a(si).decode("ascii")
+                assert name[:2] == pfx, (name, pfx)
+                buckets[name] = pfx
+        processed = {}
+        finished = []
+        schedule = [[True], [False, False, True], [False] * 700 + [True], [], [False, True], [False] * 1030 + [True], [], []]
+        for ticks in schedule:
+            del log[:]
+            clock.ticks = list(ticks)
+            clock.pending_check = False
+            c.slice_events = 0
+            c.kill_after = None
+            c.start_slice()
+            for ev in log:
+                if ev[0] == "proc":
+                    processed[(ev[1], ev[3])] = processed.get((ev[1], ev[3]), 0) + 1
+                elif ev[0] == "fin":
+                    finished.append(ev[1])
+        for cyc in finished[:2]:
+            for name in sorted(buckets):
+                n = processed.get((cyc, name), 0)
+                ctx.case(("boundary", buckets[name], cyc), kind="boundary-prefix-bucket")
+                if n != 1:
+                    ctx.oracle_fail("crawler-bucket-never-processed" if n == 0 else "crawler-bucket-processed-twice-without-kill",
+                                    "bucket %s in prefix directory %r (storage index bits %s) was processed %d times in cycle %d of an uninterrupted-by-kill crawl" % (
+                                        name, buckets[name], format((BASE32.index(buckets[name][0]) << 5) | BASE32.index(buckets[name][1]), "010b"), n, cyc),
+                                    case={"boundary_prefix": buckets[name], "bucket": name, "cycle": cyc, "schedule": [len(t) for t in schedule]},
+                                    expected=1, observed=n)
+        if len(finished) < 2:
+            ctx.oracle_fail("crawler-cycle-never-finishes", "only cycles %r finished in %d slices over the boundary buckets" % (finished, len(schedule)),
+                            case={"boundary_prefix": "all"}, expected=[0, 1], observed=finished)
+    finally:
+        crawler_mod.time = saved_time
+        import shutil
+        shutil.rmtree(base, ignore_errors=True)
+
+
 def run(ctx):
+    boundary_prefixes(ctx)
     ctx.correspondence("crawler-run-vs-model")
     ctx.correspondence("prefix-table-vs-translator")
     from translate import crawlconsts
@@ -1155,6 +1236,9 @@ def run_recipe(ctx, batch, recipe, tag):
 
 def replay(ctx, rec):
     case = rec["case"]
+    if "boundary_prefix" in case or "prefix_table" in case:
+        boundary_prefixes(ctx)
+        return {"note": "the boundary-prefix run is deterministic; failures are listed above"}
     if "damaged_recipe" in case:
         ok = run_damaged(ctx, case["damaged_recipe"], "replay-damaged", [], [])
         return {"damaged_store": case["damaged_recipe"], "property_holds": ok}
